@@ -44,6 +44,18 @@ class World:
         self.oid = {id(ob): i for i, ob in enumerate(self.o)}
         self.did = {id(ob): i for i, ob in enumerate(self.d)}
 
+    def as_iterable(self, lst):
+        """the bulk calls take any iterable: lists, tuples, generators, iterators, zip - cycled through deterministically"""
+        self.calls = getattr(self, "calls", 0) + 1
+        kind = self.calls % 4
+        if kind == 0:
+            return lst
+        if kind == 1:
+            return tuple(lst)
+        if kind == 2:
+            return (x for x in lst)
+        return iter(lst)
+
     def obj(self, tok):
         return {"n": self.n, "l": self.l, "x": self.x}[tok[0]][int(tok[1:])]
 
@@ -58,11 +70,17 @@ class World:
             if k == "node":
                 net.add_node(self.obj(op[1]))
             elif k == "nodes":
-                net.add_nodes([self.obj(t) for t in op[1]])
+                net.add_nodes(self.as_iterable([self.obj(t) for t in op[1]]))
             elif k == "link":
                 net.add_link(self.obj(op[1]), self.obj(op[2]), self.obj(op[3]))
             elif k == "links":
-                net.add_links([(self.obj(a), self.obj(b), self.obj(c)) for (a, b, c) in op[1]])
+                net.add_links(self.as_iterable([(self.obj(a), self.obj(b), self.obj(c)) for (a, b, c) in op[1]]))
+            elif k == "links_bad":          # a bulk call that fails half-way: the last tuple lacks its downstream node
+                net.add_links([(self.obj(a), self.obj(b), self.obj(c)) for (a, b, c) in op[1]] + [(self.obj(op[2][0]), self.obj(op[2][1]))])
+            elif k == "nodes_bad":          # ... a None among the nodes
+                net.add_nodes([self.obj(t) for t in op[1]] + [None] + [self.obj(t) for t in op[2]])
+            elif k == "link_bad":           # ... add_link towards None
+                net.add_link(self.obj(op[1]), self.obj(op[2]), None)
             elif k == "origin":
                 net.add_origin(self.o[op[1]], self.obj(op[2]))
             elif k == "dest":
@@ -122,11 +140,63 @@ class World:
         raise KeyError(key)
 
     def fresh_lookups(self):
-        """every look-up recomputed by a new Network object given the same underlying graph"""
-        from sym_metanet import Network
-        f = Network()
-        f._graph = self.net._graph
-        return {k: self.safe_lookup(f, k) for k in KEYS}
+        """every look-up recomputed from the raw networkx graph (node order, per node its successors in adjacency
+        order = the documented enumeration order of Network.links), with nothing of the library in between"""
+        G = self.net._graph
+        links = [(u, v, data.get("link")) for u in G.nodes for v, data in G.succ[u].items()]
+        raw = {}
+        try:
+            raw["nodes_by_name"] = {n.name: n for n in G.nodes}
+            raw["links_by_name"] = {l.name: l for (_, _, l) in links}
+            raw["nodes_by_link"] = {l: (u, v) for (u, v, l) in links}
+            raw["origins"] = {d["origin"]: n for n, d in G.nodes.data() if "origin" in d}
+            raw["destinations"] = {d["destination"]: n for n, d in G.nodes.data() if "destination" in d}
+            raw["origins_by_name"] = {o.name: o for o in raw["origins"]}
+            raw["destinations_by_name"] = {o.name: o for o in raw["destinations"]}
+            raw["origins_by_node"] = {n: o for o, n in raw["origins"].items()}
+            raw["destinations_by_node"] = {n: o for o, n in raw["destinations"].items()}
+        except Exception as ex:       # (a non-element in the graph: the C09 oracle reports it)
+            return {k: f"<raised {type(ex).__name__}>" for k in KEYS}
+        out = {}
+        for k in KEYS:
+            try:
+                out[k] = self.show_lookup(k, raw[k])
+            except Exception as ex:
+                out[k] = f"<raised {type(ex).__name__}>"
+        return out
+
+    def per_node_links(self):
+        """(library answer, recomputation from the raw graph) of the entering and leaving links of every node, of
+        a pair of nodes at once, and of the whole-network link enumeration"""
+        G = self.net._graph
+        bad = []
+
+        def fmt(it):
+            return sorted(f"{self.show(u)}>{self.show(l)}>{self.show(v)}" for (u, v, l) in it)
+        try:
+            nodes = list(G.nodes)
+            for n in nodes:
+                exp_in = fmt((u, n, d.get("link")) for u, d in G.pred[n].items())
+                exp_out = fmt((n, v, d.get("link")) for v, d in G.succ[n].items())
+                got_in, got_out = fmt(self.net.in_links(n)), fmt(self.net.out_links(n))
+                if got_in != exp_in:
+                    bad.append(f"in_links({self.show(n)}) = {got_in}, the graph has {exp_in}")
+                if got_out != exp_out:
+                    bad.append(f"out_links({self.show(n)}) = {got_out}, the graph has {exp_out}")
+            if len(nodes) >= 2:
+                two = nodes[:2]
+                exp = fmt((n, v, d.get("link")) for n in two for v, d in G.succ[n].items())
+                got = fmt(self.net.out_links(two))
+                if got != exp:
+                    bad.append(f"out_links([{self.show(two[0])}, {self.show(two[1])}]) = {got}, the graph has {exp}")
+            exp_all = fmt((u, v, d.get("link")) for u in G.nodes for v, d in G.succ[u].items())
+            got_all = fmt(self.net.links)
+            if got_all != exp_all:
+                bad.append(f"iterating net.links gives {got_all}, the graph has {exp_all}")
+        except Exception as ex:
+            if all(hasattr(n, "name") for n in G.nodes):
+                bad.append(f"per-node link queries raised {ex!r:.120}")
+        return bad
 
     def safe_lookup(self, net, k):
         """a look-up may itself raise once the graph holds something that is no element (reported by the C09
@@ -179,7 +249,10 @@ def coq_names(names):
 
 
 def model_run(histories):
-    terms = [f"run_history gen_invalidates {coq_names(nm)} [" + "; ".join(coq_op(o) for o in h) + "]"
+    # (bulk calls that fail half-way are not operations of the model: such histories are judged by the direct
+    # oracles only; a placeholder keeps the indices aligned)
+    terms = [f"run_history gen_invalidates {coq_names(nm)} [" +
+             "; ".join(coq_op(o) for o in (h if not any(o[0].endswith("_bad") for o in h) else [])) + "]"
              for (nm, h) in histories]
     res, _ = dyn.cached_eval(terms, HEADER)
     return res
@@ -274,6 +347,10 @@ def histories(ctx, exhaustive_len, n_random, max_len=14):
         for pre in ([], [("link", "n0", "l0", "n1")], [("path", ["n0", "l0", "n1"], 0, 0)]):
             for od in ((None, None), (1, None), (None, 1)):
                 hs.append((default_names(), pre + reads + [("path", list(items), od[0], od[1])] + reads))
+    for bad in (("links_bad", [("n1", "l1", "n2")], ("n2", "l2")), ("links_bad", [("n2", "l2", "n0"), ("n0", "l0", "n1")], ("n1", "l1")),
+                ("nodes_bad", ["n2"], ["n1"]), ("nodes_bad", ["n1", "n2"], []), ("link_bad", "n2", "l2")):
+        for pre in ([], [("link", "n0", "l0", "n1")]):
+            hs.append((default_names(), pre + reads + [bad] + reads))
     for i in range(n_random):
         nm = default_names() if i % 3 else colliding_names(rng)
         hs.append((nm, [random_op(rng) for _ in range(rng.randint(2, max_len))]))
@@ -308,13 +385,16 @@ def run_histories(ctx, hs, out, judge_c08=True, judge_c09=True, prefix="C08"):
                     out["failures"].append({"key": f"C09:{msg.split(':')[0]}", "history": h[:oi + 1], "names": nm,
                                             "what": f"after {short(h[:oi + 1])}: {msg}"})
         if judge_c08:
+            for msg in W.per_node_links():
+                out["failures"].append({"key": f"{prefix}:links:{msg.split('(')[0].split()[0]}", "history": h, "names": nm,
+                                        "what": f"after {short(h)}: {msg}"})
             cur, fresh = W.current_lookups(), W.fresh_lookups()
             for k in KEYS:
                 if cur[k] != fresh[k]:
                     out["failures"].append({"key": f"{prefix}:stale:{k}", "history": h + [("read", k)], "names": nm,
                                             "what": f"after {short(h)}: {k} returns {{{cur[k]}}} but a recomputation from "
                                                     f"the graph gives {{{fresh[k]}}}"})
-        if models is not None:
+        if models is not None and not any(o[0].endswith("_bad") for o in h):
             m = models[hi]
             if len(m) != len(obs):
                 out["disagreements"].append({"what": f"model produced {len(m)} observations for {len(obs)} operations", "history": h})
@@ -363,7 +443,7 @@ def c09_oracle(W, op, err):
             msgs.append(f"path-accepted: malformed path {op[1]} was accepted")
         if not wf and err not in ("ok", "TypeError", "ValueError", "StopIteration"):
             msgs.append(f"path-error: malformed path {op[1]} raised {err}")
-    elif err != "ok":
+    elif err != "ok" and not op[0].endswith("_bad"):
         msgs.append(f"call-raised: {op} raised {err}")
     return msgs
 
